@@ -369,8 +369,8 @@ def correspondence(ctx):
     res = CorrResult()
     rng = ctx.rng
     corpus = load_corpus()
-    rmvs = [c["case"] for c in corpus if c.get("kind") == "rmv"] + [gen_rmv(rng, pow2=True) for _ in range(ctx.n(500, 8000))]
-    pairs = [c["case"] for c in corpus if c.get("kind") == "pair"] + [gen_pair(rng) for _ in range(ctx.n(300, 4000))]
+    rmvs = [c["case"] for c in corpus if c.get("kind") == "rmv"] + [gen_rmv(rng, pow2=True) for _ in range(ctx.n(500, 6000))]
+    pairs = [c["case"] for c in corpus if c.get("kind") == "pair"] + [gen_pair(rng) for _ in range(ctx.n(300, 3000))]
     res.extra["corpus_cases"] = len(corpus)
     shards, index = [], []
     runs = []
